@@ -3,6 +3,8 @@
 Formal parameters deliberately carry names that generated models also use (x, y, p, q, d1), in other positions:
 every translator that renames a function's parameters to model names is then exercised with overlapping names."""
 
+import math
+
 import numpy as np
 
 # module-level floats that share their names with formal parameters of the functions below: a translator must
@@ -42,6 +44,10 @@ def step(x):
 
 def pos(y):
     return y + 1 if y >= 0 else 0.0
+
+
+def lg2(x):
+    return x * math.log2(8.0)
 
 
 def loopinc(a):
@@ -109,7 +115,7 @@ def mad(x, p, y):
     return x * p + y
 
 
-ARITY = {"one": 0, "two": 0, "id": 1, "neg": 1, "dbl": 1, "inc": 1, "step": 1, "pos": 1, "dsum": 1, "loopinc": 1, "dflt": 1,
+ARITY = {"one": 0, "two": 0, "id": 1, "neg": 1, "dbl": 1, "inc": 1, "step": 1, "pos": 1, "lg2": 1, "dsum": 1, "loopinc": 1, "dflt": 1,
          "add": 2, "sub": 2, "mul": 2, "sel": 2, "cut": 2, "cap": 2, "swp": 2, "kwo": 2, "mad": 3}
 FNS = {n: globals()[n] for n in ARITY}
 
